@@ -4,10 +4,16 @@ package snaps
 
 import (
 	"bytes"
+	"errors"
 	"fmt"
+	"os"
 	"path/filepath"
+	"regexp"
+	"sort"
 	"strconv"
 	"strings"
+	"sync"
+	"sync/atomic"
 
 	"github.com/gkampitakis/go-snaps/internal/vxrt"
 )
@@ -82,4 +88,89 @@ func H_selftest() {
 	_, okC := getTestID([]byte(c))
 	eq("getTestID", okS, okC)
 	eq("isSingleline", isSingleline(s), isSingleline(c))
+}
+
+// H_selftest_regexp: the symbolic regular-expression matcher (NFA simulation over
+// terms) against the host's regexp package: pinned-symbolic subjects must give the
+// host's answer, and for free 3-byte ASCII subjects the answer must equal a
+// hand-written predicate.
+func H_selftest_regexp() {
+	pats := []string{`^Test[A-Z]\w*$`, `a+b`, `^\[(Test[\w/#.-]* - \d+)\]$`, `\bx\b`, `(?i)^fuzz`, `^(Test|Benchmark)A/sub$`, `[^a-c]$`, `^$`, `x*`, `(ab|a)(c|bcd)$`}
+	texts := []string{"", "TestA", "testA", "[TestA/x - 12]", "[TestA - ]", "a x b", "axb", "FuzzZ", "TestA/sub", "BenchmarkA/sub/deep", "aab", "abcd", "d"}
+	c := texts[vxrt.Choice("text", len(texts))]
+	s := pinned(c)
+	for _, p := range pats {
+		re := regexp.MustCompile(p)
+		vxrt.Assert(re.MatchString(s) == re.MatchString(c), "selftest:regexp-pinned")
+		m1, _ := regexp.MatchString(p, s)
+		m2, _ := regexp.MatchString(p, c)
+		vxrt.Assert(m1 == m2, "selftest:regexp-pinned-pkg-func")
+	}
+	if vxrt.Choice("text", len(texts)) != 0 {
+		return
+	}
+	f := vxrt.Text("free", 3)
+	vxrt.Assume(asciiOnly(f))
+	m, _ := regexp.MatchString(`a+b`, f)
+	ref := vxrt.Or(vxrt.And(f[0] == 'a', f[1] == 'b'), vxrt.And(f[1] == 'a', f[2] == 'b'))
+	vxrt.Assert(m == ref, "selftest:regexp-free-a+b")
+	m, _ = regexp.MatchString(`^[A-Z]\d?$`, f[:2])
+	ref = vxrt.And(vxrt.And(f[0] >= 'A', f[0] <= 'Z'), vxrt.And(f[1] >= '0', f[1] <= '9'))
+	vxrt.Assert(m == ref, "selftest:regexp-free-class")
+	m, _ = regexp.MatchString(`\bq\b`, f)
+	w := func(b byte) bool {
+		return vxrt.Or(vxrt.Or(vxrt.And(b >= 'a', b <= 'z'), vxrt.And(b >= 'A', b <= 'Z')), vxrt.Or(vxrt.And(b >= '0', b <= '9'), b == '_'))
+	}
+	ref = vxrt.Or(vxrt.Or(vxrt.And(f[0] == 'q', vxrt.Not(w(f[1]))), vxrt.And(vxrt.And(f[1] == 'q', vxrt.Not(w(f[0]))), vxrt.Not(w(f[2])))), vxrt.And(f[2] == 'q', vxrt.Not(w(f[1]))))
+	vxrt.Assert(m == ref, "selftest:regexp-free-word-boundary")
+}
+
+type selfErr struct{ code int }
+
+func (e *selfErr) Error() string { return "self " + strconv.Itoa(e.code) }
+
+// H_selftest_lib: library models added for refactorings (sort.Slice, errors.As,
+// sync/atomic, os.Rename/RemoveAll/Mkdir, sync.Map): the same assertions hold
+// in the engine and in the native twin.
+func H_selftest_lib() {
+	dir := vxrt.Dir()
+	// sort.Slice on a slice with a symbolic element
+	b := vxrt.Byte("elem")
+	vxrt.Assume(vxrt.And(b >= 'a', b <= 'e'))
+	xs := []string{"d", string([]byte{b}), "b"}
+	sort.Slice(xs, func(i, j int) bool { return xs[i] < xs[j] })
+	vxrt.Assert(xs[0] <= xs[1] && xs[1] <= xs[2], "selftest:sort.Slice")
+	vxrt.Assert(sort.SliceIsSorted(xs, func(i, j int) bool { return xs[i] < xs[j] }), "selftest:sort.SliceIsSorted")
+	// errors.As / errors.Is through fmt.Errorf wrapping
+	var base error = &selfErr{code: 7}
+	wrapped := fmt.Errorf("ctx: %w", base)
+	var se *selfErr
+	vxrt.Assert(errors.As(wrapped, &se) && se.code == 7, "selftest:errors.As")
+	var other *os.PathError
+	vxrt.Assert(!errors.As(wrapped, &other), "selftest:errors.As-miss")
+	// atomics
+	var n atomic.Int32
+	var flag atomic.Bool
+	var raw int64
+	n.Add(2)
+	n.Add(3)
+	flag.Store(true)
+	atomic.AddInt64(&raw, 5)
+	vxrt.Assert(n.Load() == 5 && flag.Load() && atomic.LoadInt64(&raw) == 5 && n.CompareAndSwap(5, 9) && n.Load() == 9, "selftest:atomic")
+	// sync.Map
+	var m sync.Map
+	m.Store("k", 1)
+	v, ok := m.Load("k")
+	_, miss := m.Load("z")
+	act, loaded := m.LoadOrStore("k", 2)
+	vxrt.Assert(ok && v.(int) == 1 && !miss && loaded && act.(int) == 1, "selftest:sync.Map")
+	// file system
+	writeFile(dir+"/a.txt", "one")
+	vxrt.Assert(os.Rename(dir+"/a.txt", dir+"/b.txt") == nil && readFile(dir+"/b.txt") == "one" && readFile(dir+"/a.txt") == "<missing>", "selftest:os.Rename")
+	vxrt.Assert(os.Rename(dir+"/nope", dir+"/c.txt") != nil, "selftest:os.Rename-missing")
+	vxrt.Assert(os.Mkdir(dir+"/sub", 0o755) == nil && os.Mkdir(dir+"/sub", 0o755) != nil, "selftest:os.Mkdir")
+	writeFile(dir+"/sub/x.txt", "x")
+	vxrt.Assert(os.RemoveAll(dir+"/sub") == nil && readFile(dir+"/sub/x.txt") == "<missing>" && os.RemoveAll(dir+"/sub") == nil, "selftest:os.RemoveAll")
+	names, _ := osReadDirNames(dir)
+	vxrt.Assert(len(names) == 1 && names[0] == "b.txt", "selftest:dir-after")
 }
